@@ -73,6 +73,29 @@ def cub_for(el, fam, dim, variant):
     return "auto-degree:%d" % (deg + (1 if variant == 0 else 0))
 
 
+# rules for the inter-mesh transfer fine -> coarse: most of them have points on the interfaces of the child cells (odd Gauss-Legendre, closed rules)
+XRULES = {
+    ("hypercube", "lagrange1"): ["gauss-legendre:3", "trapezoidal", "gauss-lobatto:3", "gauss-legendre:2"],
+    ("hypercube", "lagrange2"): ["gauss-legendre:3", "newton-cotes-closed:3", "gauss-legendre:5", "gauss-lobatto:3"],
+    ("hypercube", "discontinuous0"): ["gauss-legendre:1", "trapezoidal", "barycentre"],
+    ("hypercube", "lagrange3"): ["gauss-legendre:5", "gauss-lobatto:5"],
+    ("hypercube", "bernstein2"): ["gauss-legendre:3", "gauss-lobatto:3"],
+    ("simplex", "lagrange1"): ["trapezoidal", "lauffer-degree-2", "hammer-stroud-degree-2"],
+    ("simplex", "lagrange2"): ["lauffer-degree-2", "lauffer-degree-4"],     # 3D; triangles: see xcub_for
+    ("simplex", "discontinuous0"): ["barycentre", "trapezoidal"],
+    ("simplex", "discontinuous1"): ["trapezoidal", "lauffer-degree-2"],
+    ("simplex", "crorav"): ["hammer-stroud-degree-2", "lauffer-degree-2"],
+    ("simplex", "lagrange3"): ["auto-degree:6"],
+}
+
+
+def xcub_for(el, fam, dim, k):
+    if fam == "simplex" and dim == 2 and el == "lagrange2":
+        return "dunavant:4"           # the closed Lauffer rule of degree 2 has too few points for a P2 mass matrix on triangles
+    rules = XRULES[(fam, el)]
+    return rules[k % len(rules)]
+
+
 def make_cases(tier, table, meshes):
     els = {}
     for t in table:
@@ -85,7 +108,7 @@ def make_cases(tier, table, meshes):
     def add(m, t, perm, cubv=0):
         nonlocal n
         c = {"id": "c%d" % n, "fam": m["fam"], "dim": m["dim"], "el": t["el"], "src": m["src"], "srcname": m["srcname"], "perm": perm,
-             "ps": t["pscale"] if t["nodal"] else 0, "nested": bool(t["nested"]), "seed": vlib.seed() * 7919 + n, "cub": cub_for(t["el"], m["fam"], m["dim"], cubv), "maxcells": m.get("maxcells", 600),
+             "ps": t["pscale"] if t["nodal"] else 0, "nested": bool(t["nested"]), "xnested": 1 if t["nested"] else 0, "xcub": xcub_for(t["el"], m["fam"], m["dim"], n), "seed": vlib.seed() * 7919 + n, "cub": cub_for(t["el"], m["fam"], m["dim"], cubv), "maxcells": m.get("maxcells", 600),
              "mk": m.get("k", 0)}
         # (deduct_topology_from_top on tetrahedra is excluded: known finding C10-tria-facet-flip-edges makes those meshes inconsistent)
         tet = m["fam"] == "simplex" and m["dim"] == 3
@@ -168,7 +191,7 @@ def _run(chk, tier, bins, gdir):
     for c in cases:
         c["out"] = os.path.join(gdir, c["id"] + ".json")
     good = []
-    worst = {"dev_p": 0.0, "dev_tp": 0.0, "dev_v": 0.0, "dev_fn": 0.0, "vdev": 0.0, "rdev": 0.0}
+    worst = {"dev_p": 0.0, "dev_tp": 0.0, "dev_v": 0.0, "dev_fn": 0.0, "vdev": 0.0, "rdev": 0.0, "xc_dev": 0.0, "xf_dev": 0.0, "dev_xs": 0.0}
     for fam in ("simplex", "hypercube"):
         cs = [c for c in cases if c["fam"] == fam]
         res = vlib.run_cases(binary_for(fam, bins), cs, tmo=120, shards=8)
@@ -178,7 +201,7 @@ def _run(chk, tier, bins, gdir):
                 continue
             if r.get("ok") is True:
                 good.append(c)
-                keys = (("dev_p", "dev_v") if c["ps"] > 0 else ("vdev", "rdev")) + (("dev_tp", "dev_fn") if c["nested"] else ())
+                keys = (("dev_p", "dev_v") if c["ps"] > 0 else ("vdev", "rdev")) + (("dev_tp", "dev_fn", "xc_dev", "xf_dev") if c["nested"] else ()) + ("dev_xs",)
                 for k in keys:
                     worst[k] = max(worst[k], r.get(k, 0.0))
                 continue
